@@ -88,24 +88,24 @@ theorem killedMb_setThr (s : NState) (t : Nat) (ts : TSt) (m : Nat) : (s.setThr 
   simp [NState.killedMb]
 
 /-- obligations on the new thread state when nothing else changes -/
-structure ThrObl (net : Net) (c : Cert) (s : NState) (t : Nat) (th : Thread) (ts ts' : TSt) : Prop where
+structure ThrObl (net : Net) (c : Cert) (s : NState) (excl : Nat → Prop) (K : Nat → Prop) (t : Nat) (th : Thread) (ts ts' : TSt) : Prop where
   pc : ts'.epi = th.epi ∧ (ts'.inEpi = false → ts'.prog <:+ th.body) ∧
     (ts'.inEpi = true → ts'.prog <:+ th.epi ∧ ts'.exc.isSome = true)
-  wait : ∀ (m : Nat) (a : AMB) (k : Nat) (sb : ASub) (x : Nat), s.mbs[m]? = some a → a.subs[k]? = some sb →
+  wait : ∀ (m : Nat) (a : AMB) (k : Nat) (sb : ASub) (x : Nat), ¬ excl m → s.mbs[m]? = some a → a.subs[k]? = some sb →
     sb.waiting = some x → c.reader m k = t → ∃ rest, ts'.prog = .read m k :: rest
-  rd : ∀ (m : Nat) (a : AMB) (k : Nat) (sb : ASub), s.mbs[m]? = some a → a.subs[k]? = some sb → c.reader m k = t →
+  rd : ∀ (m : Nat) (a : AMB) (k : Nat) (sb : ASub), ¬ excl m → s.mbs[m]? = some a → a.subs[k]? = some sb → c.reader m k = t →
     ts'.inEpi = false → ts'.prog.count (.read m k) + (sb.next - sb.buffered) = tot net c m
-  snd : ∀ (m : Nat) (a : AMB), m < net.mbs.length → s.mbs[m]? = some a → c.sender m = t →
+  snd : ∀ (m : Nat) (a : AMB), ¬ excl m → m < net.mbs.length → s.mbs[m]? = some a → c.sender m = t →
     (ts'.inEpi = false → countOut m ts'.prog + a.nSent = tot net c m) ∧ (a.closed = true → ts'.prog = [] ∧ ts'.inEpi = false)
   kills : ∀ (own : Bool) (r : Exc), ts'.inEpi = true → ts'.exc = some (own, r) →
-    (∀ m, .killIfExc m ∈ th.epi → .killIfExc m ∈ ts'.prog ∨ s.killedMb m) ∧
-    (own = true → ∀ m, .killIfOwn m ∈ th.epi → .killIfOwn m ∈ ts'.prog ∨ s.killedMb m)
-  sinkK : ∀ (r : Exc), t < net.threads.length - 1 → c.out t = none → ts'.exc = some (false, r) → s.killedMb (c.src t).1
+    (∀ m, .killIfExc m ∈ th.epi → .killIfExc m ∈ ts'.prog ∨ K m) ∧
+    (own = true → ∀ m, .killIfOwn m ∈ th.epi → .killIfOwn m ∈ ts'.prog ∨ K m)
+  sinkK : ∀ (r : Exc), t < net.threads.length - 1 → c.out t = none → ts'.exc = some (false, r) → K (c.src t).1
   joins : t = net.threads.length - 1 → ∀ u, u < net.threads.length - 1 → s.endedThr u ∨ .join u ∈ ts'.prog
   mono : ts.prog = [] → ts'.prog = []
 
 theorem TInv.thrOnly {net : Net} {c : Cert} {s : NState} {t : Nat} {th : Thread} {ts ts' : TSt} (h : TInv net c s)
-    (hth : net.threads[t]? = some th) (hts : s.thr[t]? = some ts) (o : ThrObl net c s t th ts ts') :
+    (hth : net.threads[t]? = some th) (hts : s.thr[t]? = some ts) (o : ThrObl net c s (fun _ => False) s.killedMb t th ts ts') :
     TInv net c (s.setThr t ts') := by
   have hlt : t < s.thr.length := (List.getElem?_eq_some_iff.mp hts).1
   have hthr : ∀ u, (s.setThr t ts').thr[u]? = if t = u then some ts' else s.thr[u]? := by
@@ -131,7 +131,7 @@ theorem TInv.thrOnly {net : Net} {c : Cert} {s : NState} {t : Nat} {th : Thread}
     obtain ⟨h1, h2, tsr, rest, hr, hp⟩ := h.wait m a k sb x hm hk hw
     refine ⟨h1, h2, ?_⟩
     by_cases hu : t = c.reader m k
-    · obtain ⟨rest', hp'⟩ := o.wait m a k sb x hm hk hw hu.symm
+    · obtain ⟨rest', hp'⟩ := o.wait m a k sb x id hm hk hw hu.symm
       exact ⟨ts', rest', by rw [hthr]; simp [hu], hp'⟩
     · exact ⟨tsr, rest, by rw [hthr]; simp [hu, hr], hp⟩
   · -- rd
@@ -139,7 +139,7 @@ theorem TInv.thrOnly {net : Net} {c : Cert} {s : NState} {t : Nat} {th : Thread}
     simp only [setThr_mbs] at hm
     rw [hthr] at hr
     by_cases hu : t = c.reader m k
-    · simp [hu] at hr; subst hr; exact o.rd m a k sb hm hk hu.symm hin
+    · simp [hu] at hr; subst hr; exact o.rd m a k sb id hm hk hu.symm hin
     · simp [hu] at hr; exact h.rd m a k sb tsr hm hk hr hin
   · -- snd
     intro m a hmlt hm
@@ -149,7 +149,7 @@ theorem TInv.thrOnly {net : Net} {c : Cert} {s : NState} {t : Nat} {th : Thread}
     intro tsu hu
     rw [hthr] at hu
     by_cases hu' : t = c.sender m
-    · simp [hu'] at hu; subst hu; exact o.snd m a hmlt hm hu'.symm
+    · simp [hu'] at hu; subst hu; exact o.snd m a id hmlt hm hu'.symm
     · simp [hu'] at hu; exact h3 tsu hu
   · -- kills
     intro u thu tsu own r hu1 hu2 hin hexc
@@ -351,5 +351,39 @@ theorem TInv.both {net : Net} {c : Cert} {s : NState} {t m : Nat} {th : Thread} 
       exact (o.joins hmain u hu).imp (hended u) id
     · simp [hmain] at hmn
       exact (h.joins u tm hu hmn).imp (hended u) id
+
+/-- the obligations of a thread+mailbox update from the thread-only obligations (for every OTHER mailbox) and the
+local facts about the updated mailbox -/
+theorem BothObl.of {net : Net} {c : Cert} {s : NState} {t m : Nat} {th : Thread} {ts ts' : TSt} {a a' : AMB}
+    (hm : s.mbs[m]? = some a) (o : ThrObl net c s (fun k => k = m) (killedNew s m a') t th ts ts')
+    (monoK : a.killed = true → a'.killed = true) (lenS : a'.subs.length = a.subs.length)
+    (sub : ∀ (k : Nat) (sb' : ASub), a'.subs[k]? = some sb' → sb'.buffered ≤ sb'.next ∧ sb'.next ≤ a'.nSent)
+    (waitM : ∀ (k : Nat) (sb' : ASub) (x : Nat), a'.subs[k]? = some sb' → sb'.waiting = some x →
+      x = sb'.next ∧ sb'.buffered = 0 ∧
+      (if c.reader m k = t then ∃ rest, ts'.prog = .read m k :: rest
+       else ∃ (tsr : TSt) (rest : List Instr), s.thr[c.reader m k]? = some tsr ∧ tsr.prog = .read m k :: rest))
+    (rdM : ∀ (k : Nat) (sb' : ASub), a'.subs[k]? = some sb' →
+      (if c.reader m k = t then ts'.inEpi = false → ts'.prog.count (.read m k) + (sb'.next - sb'.buffered) = tot net c m
+       else ∀ (tsr : TSt), s.thr[c.reader m k]? = some tsr → tsr.inEpi = false →
+         tsr.prog.count (.read m k) + (sb'.next - sb'.buffered) = tot net c m))
+    (sndM : m < net.mbs.length → a'.nSent ≤ tot net c m ∧ (a'.closed = true ↔ a'.nSent = tot net c m) ∧
+      (if c.sender m = t then
+         (ts'.inEpi = false → countOut m ts'.prog + a'.nSent = tot net c m) ∧ (a'.closed = true → ts'.prog = [] ∧ ts'.inEpi = false)
+       else ∀ (tsu : TSt), s.thr[c.sender m]? = some tsu →
+         (tsu.inEpi = false → countOut m tsu.prog + a'.nSent = tot net c m) ∧ (a'.closed = true → tsu.prog = [] ∧ tsu.inEpi = false))) :
+    BothObl net c s t th ts ts' m a a' := by
+  refine ⟨monoK, lenS, o.pc, sub, waitM, ?_, rdM, ?_, sndM, ?_, o.kills, o.sinkK, o.joins, o.mono⟩
+  · intro m2 a2 k sb x hne; exact o.wait m2 a2 k sb x hne
+  · intro m2 a2 k sb hne; exact o.rd m2 a2 k sb hne
+  · intro m2 a2 hne; exact o.snd m2 a2 hne
+
+/-- what was killed stays killed when mailbox `m` is replaced by a state that keeps the flag -/
+theorem killedNew_of_old {s : NState} {m : Nat} {a a' : AMB} (hm : s.mbs[m]? = some a)
+    (monoK : a.killed = true → a'.killed = true) (m' : Nat) (h : s.killedMb m') : killedNew s m a' m' := by
+  obtain ⟨a2, h1, h2⟩ := h
+  unfold killedNew
+  by_cases hmm : m' = m
+  · subst hmm; simp only [if_true]; rw [hm] at h1; cases h1; exact monoK h2
+  · simp only [hmm, if_false]; exact ⟨a2, h1, h2⟩
 
 end Strax.Net
